@@ -316,8 +316,20 @@ def rule_preset_joined(mod, rep):
             if not mul:
                 continue
             lds = [l for l in expr_loads(f, ["v", mul[0].i]) if any(len(p) >= 3 and p[-3][0] == "f" and p[-3][2] == "colcnt_h" for p in f.addr_paths(l))]
-            hasrow = any(x.op == "phi" and any(strip_casts(f, o)[0] == "v" and f.inst[strip_casts(f, o)[1]].op == "add" and any(is_const(z, 1) for z in f.inst[strip_casts(f, o)[1]].ops) for o in x.ops)
-                         for x in expr_insts(f, ["v", mul[0].i], through_loads=False) if x.op == "phi" and x.ty.startswith("i"))
+            def _is_counter(g, x):
+                return x.op == "phi" and x.ty.startswith("i") and any(strip_casts(g, o)[0] == "v" and g.inst[strip_casts(g, o)[1]].op == "add" and any(is_const(z, 1) for z in g.inst[strip_casts(g, o)[1]].ops) for o in x.ops)
+            def _helper_counter(x):
+                # rs_nrow = helper(...): the helper returns a counter it incremented by one in a loop
+                if x.op != "call" or x.callee not in mod.funcs:
+                    return False
+                g = mod.funcs[x.callee]
+                for r_ in g.rets():
+                    if r_.ops:
+                        for y in expr_insts(g, r_.ops[0], through_loads=False):
+                            if _is_counter(g, y):
+                                return True
+                return False
+            hasrow = any(_is_counter(f, x) or _helper_counter(x) for x in expr_insts(f, ["v", mul[0].i], through_loads=False, through_calls=False))
             sites.append((a, bool(lds), hasrow))
         # the joined-columns site: uses colcnt[k] with k not the loop column j -> the site that has both; at least one site must have both
         both = [s for s in sites if s[1] and s[2]]
